@@ -325,6 +325,50 @@ func dominatingCondsOtherThanLoop(in ssa.Instruction) []condEdge {
 	return condsOtherThanLoop(dominatingConds(in.Block()))
 }
 
+// condsOtherThanEmptiness drops tests of the form len(xs) != 0 for a list that is ranged over completely somewhere in the
+// same function: skipping the loop over an empty list excludes nothing the loop would have done.
+func condsOtherThanEmptiness(all []condEdge) []condEdge {
+	var out []condEdge
+	for _, ce := range all {
+		if cm, ok := ce.asCmp(); ok {
+			var lenCall *ssa.Call
+			var k int64
+			var isK bool
+			if call, isCall := cm.x.(*ssa.Call); isCall {
+				lenCall = call
+				k, isK = constInt(cm.y)
+			}
+			if lenCall != nil && isK {
+				if bi, isB := lenCall.Call.Value.(*ssa.Builtin); isB && bi.Name() == "len" && len(lenCall.Call.Args) == 1 {
+					nonEmpty := (cm.op == token.NEQ && k == 0) || (cm.op == token.GTR && k == 0) || (cm.op == token.GEQ && k == 1)
+					if nonEmpty && isRangedCompletely(lenCall.Parent(), lenCall.Call.Args[0]) {
+						continue
+					}
+				}
+			}
+		}
+		out = append(out, ce)
+	}
+	return out
+}
+
+// isRangedCompletely: some forward, complete range loop of fn runs over the slice value v.
+func isRangedCompletely(fn *ssa.Function, v ssa.Value) bool {
+	v = resolve(v)
+	for _, b := range fn.Blocks {
+		for _, in := range b.Instrs {
+			u, ok := in.(*ssa.UnOp)
+			if !ok || u.Op != token.MUL {
+				continue
+			}
+			if src, full := fullRangeElem(u); full && resolve(src) == v {
+				return true
+			}
+		}
+	}
+	return false
+}
+
 func condsOtherThanLoop(all []condEdge) []condEdge {
 	var out []condEdge
 	for _, ce := range all {
